@@ -39,7 +39,8 @@ def anchors(lentil):
 
 
 def _is_scalar(field):
-    return field.data.size == 1
+    # a constant is a 0-d field (the default wavefront, scalar plane phasors); a (1,1) array is one pixel
+    return field.data.ndim == 0
 
 
 def _canvas_of(field):
@@ -116,11 +117,8 @@ def insert_before(ctx, args, kwargs):
 def insert_oracle(ctx, args, kwargs, result, exc, pre):
     a = _bind_insert(args, kwargs)
     field, out = a['field'], a['out']
-    if pre is None or not isinstance(out, np.ndarray) or out.ndim != 2 or field.data.ndim != 2:
+    if pre is None or not isinstance(out, np.ndarray) or out.ndim != 2 or field.data.ndim != 2 or field.data.size == 0:
         ctx.skip('insert: non 2-D operands')
-        return
-    if field.data.size == 1 and out.size != 1:
-        ctx.skip('insert: one-element field (no finite embedding; DESIGN.md C06)')
         return
     wit = {'field': _desc(field), 'out_shape': list(out.shape), 'intensity': bool(a['intensity']),
            'weight': a['weight']}
@@ -146,8 +144,11 @@ insert_oracle.before = insert_before
 
 def _merge_check(ctx, fields, result, exc, key):
     fields = list(fields)
-    if any(f.data.ndim != 2 or f.data.size <= 1 for f in fields):
-        ctx.skip('merge: one-element/ non 2-D operand (no finite embedding)')
+    if any(f.data.ndim != 2 or f.data.size == 0 for f in fields):
+        ctx.skip('merge: constant (0-d) operand has no finite embedding')
+        return
+    if set().union(*[rm.coordset(f.data.shape, f.offset) for f in fields]) == {(0, 0)}:
+        ctx.skip('merge: collection is the single origin sample (lentil reserves that extent for constants)')
         return
     wit = {'fields': [_desc(f) for f in fields]}
     if exc is not None:
@@ -181,8 +182,11 @@ def reduce_oracle(ctx, args, kwargs, result, exc, pre):
     fields = list(args[0])
     if not fields:
         return
-    if any(f.data.ndim != 2 or f.data.size <= 1 for f in fields):
-        ctx.skip('reduce: one-element operand (no finite embedding)')
+    if any(f.data.ndim != 2 or f.data.size == 0 for f in fields):
+        ctx.skip('reduce: constant (0-d) operand has no finite embedding')
+        return
+    if set().union(*[rm.coordset(f.data.shape, f.offset) for f in fields]) == {(0, 0)}:
+        ctx.skip('reduce: collection is the single origin sample')
         return
     wit = {'fields': [_desc(f) for f in fields]}
     if exc is not None:
@@ -261,9 +265,7 @@ def workload(ctx, lentil):
     for i in range(n):
         kind = rng.integers(0, 10)
         if kind < 6:
-            sa, sb = _rshape(rng, 2), _rshape(rng, 2)
-            if sa == (1, 1):
-                sa = (2, 1)
+            sa, sb = _rshape(rng, 1), _rshape(rng, 1)
             oa = roff(5)
             ob = [oa[0] + int(rng.integers(-6, 7)), oa[1] + int(rng.integers(-6, 7))]
             a, b = Field(_rdata(rng, sa), offset=oa), Field(_rdata(rng, sb), offset=ob)
@@ -271,10 +273,7 @@ def workload(ctx, lentil):
             bk = ['mul:array*array'] + (['mul:disjoint'] if disjoint else [])
         elif kind < 9:
             sa = _rshape(rng, 1)
-            if sa == (1, 1):
-                sa = (1, 2)
-            form = rng.integers(0, 2)
-            sc = np.array(complex(rng.normal(), rng.normal())) if form else _rdata(rng, (1, 1))
+            sc = np.array(complex(rng.normal(), rng.normal()))
             a = Field(_rdata(rng, sa), offset=roff())
             b = Field(sc, offset=roff() if rng.random() < 0.5 else None)
             if rng.random() < 0.5:
@@ -289,7 +288,7 @@ def workload(ctx, lentil):
                  nontrivial=a.data.size > 1 or b.data.size > 1)
         res = a * b        # probe decides
         # bookkeeping of the result itself: cached extent agrees with its data/offset
-        if res.data.size > 1:
+        if res.data.ndim == 2 and res.data.size > 0:
             cs = rm.coordset(res.data.shape, res.offset)
             ctx.check(tuple(int(x) for x in res.extent) == _bbox(cs), 'extent=sets', 'field|extent',
                       'Field.extent disagrees with the coordinates of its samples', _desc(res))
@@ -297,8 +296,6 @@ def workload(ctx, lentil):
     # ---- insert -----------------------------------------------------------
     for i in range(n):
         fs = _rshape(rng, 1)
-        if fs == (1, 1):
-            fs = (2, 2)
         ts = _rshape(rng, 1, 9)
         mode = rng.integers(0, 4)
         if mode == 0:     # wholly outside, on any of the four sides / corners
@@ -340,8 +337,6 @@ def workload(ctx, lentil):
         spread = 3 if neg else int(rng.integers(2, 9))
         for j in range(k):
             s = _rshape(rng, 1, 6)
-            if s == (1, 1):
-                s = (2, 1)
             off = [base[0] + int(rng.integers(-spread, spread + 1)),
                    base[1] + int(rng.integers(-spread, spread + 1))]
             if neg:   # keep the whole extent at negative coordinates
